@@ -102,7 +102,9 @@ class _Continue(Exception):
 
 BUILTINS = {'dict', 'range', 'enumerate', 'str', 'int', 'len', 'abs', 'isinstance', 'tuple', 'bool', 'ValueError', 'Exception',
             'KeyError', 'NotImplementedError', 'TypeError', 'list', 'sorted', 'set', 'min', 'max', 'all', 'any', 'zip', 'map',
-            'print', 'repr', 'ConnectionError', 'IndexError', 'AssertionError', 'sum', 'reversed', 'frozenset'}
+            'print', 'repr', 'ConnectionError', 'IndexError', 'AssertionError', 'sum', 'reversed', 'frozenset', 'getattr', 'hasattr',
+            'setattr', 'RuntimeError', 'OSError', 'id', 'iter', 'next', 'divmod', 'round', 'type', 'object', 'AttributeError', 'StopIteration',
+            'TimeoutError', 'ord', 'chr', 'filter', 'callable', 'format', 'hash', 'bytes', 'float'}
 
 
 class Folder:
@@ -852,6 +854,30 @@ class Folder:
                 return list(reversed(args[0]))
             if n == 'frozenset':
                 return frozenset(args[0]) if args else frozenset()
+            if n in ('getattr', 'hasattr'):
+                try:
+                    v = self._attr_or_prop(args[0], args[1])
+                    return True if n == 'hasattr' else v
+                except (Unsupported, FoldRaise, AnalysisError, KeyError, AttributeError):
+                    if n == 'hasattr':
+                        return False
+                    if len(args) > 2:
+                        return args[2]
+                    raise FoldRaise('AttributeError', str(args[1]))
+            if n == 'setattr':
+                if isinstance(args[0], DV):
+                    args[0].fields[args[1]] = args[2]
+                    return None
+                raise Unsupported('setattr on a non-object')
+            if n == 'divmod':
+                return divmod(*args)
+            if n == 'round':
+                return round(*args)
+            if n == 'float':
+                return float(*args)
+            if n == 'filter':
+                fn_ = self._as_callable(args[0])
+                return [x for x in args[1] if self._truth(fn_(x) if fn_ is not None else x)]
             if n == 'isinstance':
                 v, c = args
                 if isinstance(c, ClsRef):
